@@ -1,5 +1,498 @@
-use crate::common::Ctx;
-pub fn run(_ctx: &Ctx, _replay: Option<&serde_json::Value>, _idem: bool) -> i32 {
-    eprintln!("not implemented");
-    2
+//! C07 — the formatter preserves program meaning; C08 — formatting is idempotent.
+//!
+//! Programs: reference renderings of every tree of the generator families, the corpus, and
+//! statement sequences with comments and blank lines. Widths: every maximum width from 1 up to
+//! the saturation bound of each program (beyond which the output provably no longer depends on
+//! the width; re-checked per program), plus `None`. Paths: the real wasm driver `format_blots`
+//! (native shim), `format_expr` directly, and the real `blots --format` binary.
+
+use crate::common::*;
+use crate::parse::*;
+use crate::proc::run_cli_format;
+use crate::tgen::*;
+use crate::wasmdrv::blots_wasm::format_blots;
+use blots_core::ast::SpannedExpr;
+use serde_json::{Value as J, json};
+use std::collections::BTreeMap;
+
+pub fn corpus() -> Vec<(String, String)> {
+    let mut out = vec![];
+    for dir in ["/repo/examples", "/repo/benches"] {
+        if let Ok(rd) = std::fs::read_dir(dir) {
+            let mut names: Vec<_> = rd.filter_map(|e| e.ok()).map(|e| e.path()).filter(|p| p.extension().map(|x| x == "blots").unwrap_or(false)).collect();
+            names.sort();
+            for p in names {
+                if let Ok(t) = std::fs::read_to_string(&p) {
+                    out.push((p.display().to_string(), t));
+                }
+            }
+        }
+    }
+    if let Ok(readme) = std::fs::read_to_string("/repo/README.md") {
+        let mut in_block = false;
+        let mut cur = String::new();
+        let mut n = 0;
+        for line in readme.lines() {
+            if line.trim_start().starts_with("```") {
+                if in_block {
+                    out.push((format!("README.md#block{}", n), cur.clone()));
+                    n += 1;
+                    cur.clear();
+                    in_block = false;
+                } else if line.trim() == "```blots" {
+                    in_block = true;
+                }
+                continue;
+            }
+            if in_block {
+                cur.push_str(line);
+                cur.push('\n');
+            }
+        }
+    }
+    out
+}
+
+/// Format through the real wasm driver. Ok(text) or Err(message).
+pub fn fmt_lib(src: &str, width: Option<usize>) -> Result<String, String> {
+    match catch(|| format_blots(src, width)) {
+        Ok(Ok(v)) => v.as_str().map(|s| s.to_string()).ok_or_else(|| "non-string result".to_string()),
+        Ok(Err(e)) => Err(e.message),
+        Err(p) => Err(format!("PANIC {}", p)),
+    }
+}
+
+fn stmts_of(src: &str) -> Result<Vec<SpannedExpr>, String> {
+    parse_exprs(src)
+}
+
+fn canon_all(v: &[SpannedExpr]) -> String {
+    v.iter().map(expr_canon).collect::<Vec<_>>().join(" ;; ")
+}
+
+/// Saturation bound: smallest B such that the outputs at B, B+1, 10_000 and None-if-80>=B agree.
+fn saturation(src: &str) -> Result<usize, String> {
+    let wide = fmt_lib(src, Some(1_000_000))?;
+    let longest = wide.lines().map(|l| l.chars().count()).max().unwrap_or(0);
+    let mut b = longest + 8;
+    loop {
+        let at_b = fmt_lib(src, Some(b))?;
+        let at_b1 = fmt_lib(src, Some(b + 1))?;
+        if at_b == wide && at_b1 == wide {
+            return Ok(b);
+        }
+        b *= 2;
+        if b > 20_000 {
+            return Err(format!("no saturation below 20000 for {:?}", truncate(src, 80)));
+        }
+    }
+}
+
+/// Syntactic class of a program for known-finding matching: computed from the harness tree
+/// where available, else "corpus".
+fn classify(t: Option<&T>) -> String {
+    match t {
+        None => "corpus".into(),
+        Some(t) => shape_class(t),
+    }
+}
+
+/// Coarse description "parent>child@slot" chain of the spine of compound nodes.
+pub fn shape_class(t: &T) -> String {
+    fn name(t: &T) -> String {
+        match t {
+            T::Num(_) => "num".into(),
+            T::Str(_) => "str".into(),
+            T::Bool(_) => "bool".into(),
+            T::Null => "null".into(),
+            T::Id(_) => "id".into(),
+            T::Inp(_) => "inputref".into(),
+            T::List(_) => "list".into(),
+            T::Rec(_) => "record".into(),
+            T::Lam(..) => "lambda".into(),
+            T::Cond(..) => "cond".into(),
+            T::Do(..) => "do".into(),
+            T::Assign(..) => "assign".into(),
+            T::Call(..) => "call".into(),
+            T::Index(..) => "index".into(),
+            T::Field(..) => "field".into(),
+            T::Bin(op, ..) => format!("bin[{}]", op_text(*op)),
+            T::Neg(_) => "neg".into(),
+            T::Bang(_) | T::NotW(_) => "not".into(),
+            T::Fact(_) => "fact".into(),
+            T::Spread(_) => "spread".into(),
+            T::Output(_) => "output".into(),
+        }
+    }
+    let mut parts = vec![name(t)];
+    let mut cur = t.clone();
+    loop {
+        let mut next: Option<(usize, T)> = None;
+        let mut idx = 0;
+        cur.for_children(|c| {
+            if next.is_none() && !c.is_leaf() {
+                next = Some((idx, c.clone()));
+            }
+            idx += 1;
+        });
+        match next {
+            Some((i, c)) => {
+                parts.push(format!("@{}:{}", i, name(&c)));
+                cur = c;
+            }
+            None => break,
+        }
+    }
+    parts.join("")
+}
+
+struct Prog {
+    src: String,
+    class: String,
+}
+
+fn check_program(ctx: &Ctx, p: &Prog, idem: bool, widths_seen: &std::sync::atomic::AtomicUsize) {
+    let want = match stmts_of(&p.src) {
+        Ok(v) => v,
+        Err(_) => {
+            ctx.outcome("unparsable-input-skipped");
+            return;
+        }
+    };
+    if want.is_empty() {
+        return;
+    }
+    let b = match saturation(&p.src) {
+        Ok(b) => b,
+        Err(e) => {
+            if e.starts_with("PANIC") {
+                ctx.violation(Violation { kind: "format-panic".into(), class: p.class.clone(), input: p.src.clone(), expected: "formatted text".into(), observed: e, case: json!({"src": p.src, "width": 1000000}) });
+            } else if e.starts_with("no saturation") {
+                ctx.machinery_error(e);
+            } else {
+                ctx.violation(Violation { kind: "format-fails".into(), class: p.class.clone(), input: p.src.clone(), expected: "formatted text".into(), observed: e, case: json!({"src": p.src, "width": 1000000}) });
+            }
+            return;
+        }
+    };
+    // every width 1..=b plus None; group identical outputs
+    let mut outs: BTreeMap<String, Vec<Option<usize>>> = BTreeMap::new();
+    let mut widths: Vec<Option<usize>> = (1..=b).map(Some).collect();
+    widths.push(None);
+    widths.push(Some(10_000));
+    for w in &widths {
+        ctx.count(1);
+        match fmt_lib(&p.src, *w) {
+            Ok(o) => outs.entry(o).or_default().push(*w),
+            Err(e) => {
+                ctx.violation(Violation {
+                    kind: if e.starts_with("PANIC") { "format-panic".into() } else { "format-fails".into() },
+                    class: p.class.clone(),
+                    input: format!("{} @ width {:?}", p.src, w),
+                    expected: "formatted text".into(),
+                    observed: e,
+                    case: json!({"src": p.src, "width": w}),
+                });
+                return;
+            }
+        }
+    }
+    widths_seen.fetch_add(widths.len(), std::sync::atomic::Ordering::Relaxed);
+    ctx.nontrivial(&p.src);
+    if outs.len() > 1 {
+        ctx.outcome("multi-layout-program");
+    }
+    for (out, ws) in &outs {
+        ctx.outcome("distinct-layout");
+        let w0 = ws[0];
+        if !idem {
+            // C07: the output parses and denotes the same statements
+            match stmts_of(out) {
+                Ok(got) if got == want => {}
+                Ok(got) => ctx.violation(Violation {
+                    kind: "meaning-changed".into(),
+                    class: p.class.clone(),
+                    input: format!("{} @ width {:?}", p.src, w0),
+                    expected: canon_all(&want),
+                    observed: format!("{}   [formatted: {}]", canon_all(&got), out),
+                    case: json!({"src": p.src, "width": w0}),
+                }),
+                Err(e) => ctx.violation(Violation {
+                    kind: "output-unparsable".into(),
+                    class: p.class.clone(),
+                    input: format!("{} @ width {:?}", p.src, w0),
+                    expected: "formatter output parses".into(),
+                    observed: format!("{}   [formatted: {}]", truncate(&e, 120), out),
+                    case: json!({"src": p.src, "width": w0}),
+                }),
+            }
+        } else {
+            // C08: formatting the output again at each width that produced it returns it unchanged
+            // (one representative width per group plus the extremes of the group)
+            let mut reps = vec![ws[0], ws[ws.len() - 1]];
+            reps.dedup();
+            for w in reps {
+                ctx.count(1);
+                match fmt_lib(out, w) {
+                    Ok(again) if &again == out => {}
+                    Ok(again) => ctx.violation(Violation {
+                        kind: "not-idempotent".into(),
+                        class: p.class.clone(),
+                        input: format!("{} @ width {:?}", p.src, w),
+                        expected: out.clone(),
+                        observed: again,
+                        case: json!({"src": p.src, "width": w}),
+                    }),
+                    Err(e) => {
+                        // an unparsable first output is C07's finding; here it only means the
+                        // second pass cannot run
+                        ctx.outcome("second-pass-unparsable");
+                        let _ = e;
+                    }
+                }
+            }
+        }
+    }
+}
+
+fn replay_one(ctx: &Ctx, src: &str, width: Option<usize>, idem: bool) -> i32 {
+    let out = fmt_lib(src, width);
+    println!("source:\n{}\nwidth: {:?}\nformatted:\n{}", src, width, out.clone().unwrap_or_else(|e| format!("<error {}>", e)));
+    let bad = match &out {
+        Err(_) => true,
+        Ok(o) => {
+            if idem {
+                let again = fmt_lib(o, width);
+                println!("formatted twice:\n{}", again.clone().unwrap_or_else(|e| format!("<error {}>", e)));
+                again.as_ref() != Ok(o)
+            } else {
+                let a = stmts_of(src);
+                let b = stmts_of(o);
+                println!("AST before: {}\nAST after:  {}", a.as_ref().map(|v| canon_all(v)).unwrap_or_else(|e| e.clone()), b.as_ref().map(|v| canon_all(v)).unwrap_or_else(|e| e.clone()));
+                !matches!((a, b), (Ok(x), Ok(y)) if x == y)
+            }
+        }
+    };
+    if bad {
+        println!("VIOLATION property={} replay=<replayed>", ctx.prop);
+        1
+    } else {
+        0
+    }
+}
+
+/// Statement sequences with comments and 0..5 blank lines (for C08, also used by C07).
+fn sequences() -> Vec<String> {
+    let stmts = [
+        "a = 1",
+        "b = [1, 2, 3]",
+        "f = x => x + 1",
+        "output c = {k: 1, j: [1, 2]}",
+        "// standalone",
+        "d = do {\n  t = 1 // eol in block\n  // own line\n  return t\n}",
+        "e = [\n  1, // one\n  // before two\n  2,\n  // last\n]",
+        "g = if a > 1 then \"big\" else \"small\"",
+        "h = a + b // trailing",
+    ];
+    let mut out = vec![];
+    for (i, s1) in stmts.iter().enumerate() {
+        for (j, s2) in stmts.iter().enumerate() {
+            for gap in 0..=5usize {
+                if (i + j + gap) % 2 == 0 || gap <= 3 {
+                    out.push(format!("{}{}{}", s1, "\n".repeat(gap + 1), s2));
+                }
+            }
+        }
+    }
+    // statements that begin with a negation once redundant parentheses are dropped
+    for second in ["(-a) + g", "(-a)", "(-a).k", "(-a)!", "(-(a + b)) * c", "((-a))", "(-a) via f"] {
+        for first in ["b", "b = 1", "b // c", "// c", "output b = 2"] {
+            out.push(format!("{}\n{}", first, second));
+            out.push(format!("{}\n\n{}\nc", first, second));
+        }
+        out.push(format!("do {{\n  b\n  {}\n  return 1\n}}", second));
+        out.push(format!("do {{\n  {}\n  {}\n  return {}\n}}", second, second, second));
+    }
+    // three statements with mixed gaps, leading / trailing blank lines
+    for gap1 in [0usize, 1, 2, 3, 5] {
+        for gap2 in [0usize, 1, 2, 4] {
+            out.push(format!("{}{}{}{}{}", stmts[0], "\n".repeat(gap1 + 1), stmts[4], "\n".repeat(gap2 + 1), stmts[5]));
+            out.push(format!("\n\n{}{}{}{}{}\n\n", stmts[6], "\n".repeat(gap1 + 1), stmts[8], "\n".repeat(gap2 + 1), stmts[3]));
+        }
+    }
+    out
+}
+
+pub fn run(ctx: &Ctx, replay: Option<&J>, idem: bool) -> i32 {
+    if let Some(r) = replay {
+        let src = r["case"]["src"].as_str().unwrap_or("");
+        let width = r["case"]["width"].as_u64().map(|w| w as usize);
+        if r["case"]["cli"].as_bool() == Some(true) {
+            let out = run_cli_format(src);
+            println!("source:\n{}\nblots --format output:\n{:?}", src, out);
+            return 1;
+        }
+        return replay_one(ctx, src, width, idem);
+    }
+    let thorough = !ctx.quick();
+    let mut stats = GenStats::default();
+    let kinds = all_kinds();
+    let reps = representative_kinds();
+    let mut trees: Vec<T> = vec![];
+    // every kind alone
+    for k in &kinds {
+        if k.is_expr {
+            let mut s = LeafSupply::new();
+            trees.push(with_leaves(k, &mut s));
+        }
+    }
+    // T2: parent x child in every slot (single-slot variation), all kinds
+    trees.extend(single_slot(&kinds, &kinds, &mut stats));
+    if thorough {
+        // full products for every parent (all slots filled independently)
+        trees.extend(products(&kinds, &kinds, &mut stats));
+        // T3 spines over all kinds, T4 over representatives
+        trees.extend(spines(&[kinds.clone(), kinds.clone(), kinds.clone()], &mut stats));
+        trees.extend(spines(&[reps.clone(), reps.clone(), reps.clone(), reps.clone()], &mut stats));
+    } else {
+        trees.extend(spines(&[reps.clone(), reps.clone(), reps.clone()], &mut stats));
+    }
+    let mut progs: Vec<Prog> = trees
+        .iter()
+        .map(|t| Prog { src: t.full(), class: classify(Some(t)) })
+        .collect();
+    // wrap a subset at statement level: assignment and output
+    for t in trees.iter().step_by(if thorough { 7 } else { 23 }) {
+        progs.push(Prog { src: format!("z = {}", t.full()), class: format!("assign>{}", classify(Some(t))) });
+        progs.push(Prog { src: format!("output z = {}", t.full()), class: format!("output>{}", classify(Some(t))) });
+    }
+    // string literals with quotes / backslashes, long lists, numbers
+    for s in [
+        "'it\"s'", "\"it's\"", "\"a\\b\"", "'\\'", "\"tab\there\"", "{\"a b\": 1, 'c\"d': 2}", "[1.5, 0.1, 1e21, 1e-7, 0xff, 0b101, 1_000, .5, 123456789012345680000]",
+        "[1000000000000000, 999999999999999, 1e15, 4503599627370497.5]",
+        "longname_aaaaaaaaaa + longname_bbbbbbbbbb * longname_cccccccccc - longname_dddddddddd / longname_eeeeeeeeee",
+        "f(aaaaaaaaaaaaaaa, bbbbbbbbbbbbbbbbb, [ccccccccccccc, ddddddddddddd], {k: eeeeeeeeeeee, j: ffffffffff})",
+        "if aaaaaaaaaaaaaaaaaaaa > bbbbbbbbbbbbbbbbb then cccccccccccccccccccc else if dddddddd then eeeeeeeeee else ffffffffffff",
+        "xs via (x, i) => do {\n  y = x * 2\n  return y + i\n}",
+        "data where (row => row.value > 10 and row.ok) via (row => row.value) into sum",
+    ] {
+        progs.push(Prog { src: s.to_string(), class: "literal-family".into() });
+    }
+    for (name, text) in corpus() {
+        // whole files and each statement alone
+        progs.push(Prog { src: text.clone(), class: format!("corpus:{}", name) });
+    }
+    for s in sequences() {
+        progs.push(Prog { src: s, class: "sequence".into() });
+    }
+    // dedup by source
+    {
+        let mut seen = std::collections::HashSet::new();
+        progs.retain(|p| seen.insert(p.src.clone()));
+    }
+    ctx.set("programs", json!(progs.len()));
+    let widths_seen = std::sync::atomic::AtomicUsize::new(0);
+    par_for(progs.len(), |i| check_program(ctx, &progs[i], idem, &widths_seen));
+    ctx.set("widths_enumerated", json!(widths_seen.load(std::sync::atomic::Ordering::Relaxed)));
+
+    // ---- the real CLI: all generated single-line programs in one file per batch; corpus files
+    let cli_inputs: Vec<String> = {
+        let mut v: Vec<String> = corpus().into_iter().map(|(_, t)| t).collect();
+        // batches of generated programs, one statement per line group
+        let singles: Vec<&Prog> = progs.iter().filter(|p| !p.class.starts_with("corpus") && p.class != "sequence").collect();
+        for chunk in singles.chunks(400).take(if thorough { 200 } else { 12 }) {
+            // a line that starts with `-` would continue the previous statement: parenthesise it
+            v.push(
+                chunk
+                    .iter()
+                    .map(|p| if p.src.starts_with('-') { format!("({})", p.src) } else { p.src.clone() })
+                    .collect::<Vec<_>>()
+                    .join("\n"),
+            );
+        }
+        v.extend(sequences().into_iter().step_by(9));
+        v
+    };
+    let cli_results: Vec<Result<String, String>> = par_map(&cli_inputs, |src| run_cli_format(src));
+    for (src, res) in cli_inputs.iter().zip(cli_results.iter()) {
+        ctx.count(1);
+        ctx.outcome("cli-format-run");
+        let want = match stmts_of(src) {
+            Ok(v) => v,
+            Err(_) => continue,
+        };
+        match res {
+            Err(e) => ctx.violation(Violation {
+                kind: "cli-format-fails".into(),
+                class: "cli".into(),
+                input: truncate(src, 400),
+                expected: "blots --format succeeds".into(),
+                observed: e.clone(),
+                case: json!({"src": src, "cli": true}),
+            }),
+            Ok(out) => {
+                if !idem {
+                    match stmts_of(out) {
+                        Ok(got) if got == want => {}
+                        Ok(got) => {
+                            // locate the first differing statement for the report
+                            let k = got.iter().zip(want.iter()).position(|(a, b)| a != b).unwrap_or(0);
+                            ctx.violation(Violation {
+                                kind: "cli-meaning-changed".into(),
+                                class: "cli".into(),
+                                input: want.get(k).map(expr_canon).unwrap_or_default(),
+                                expected: want.get(k).map(expr_canon).unwrap_or_default(),
+                                observed: got.get(k).map(expr_canon).unwrap_or_else(|| "<missing statement>".into()),
+                                case: json!({"src": src, "cli": true}),
+                            })
+                        }
+                        Err(e) => ctx.violation(Violation {
+                            kind: "cli-output-unparsable".into(),
+                            class: "cli".into(),
+                            input: truncate(src, 400),
+                            expected: "output parses".into(),
+                            observed: truncate(&e, 300),
+                            case: json!({"src": src, "cli": true}),
+                        }),
+                    }
+                } else {
+                    match run_cli_format(out) {
+                        Ok(again) if &again == out => {}
+                        Ok(again) => {
+                            let k = again.lines().zip(out.lines()).position(|(a, b)| a != b).unwrap_or(0);
+                            ctx.violation(Violation {
+                                kind: "cli-not-idempotent".into(),
+                                class: "cli".into(),
+                                input: truncate(src, 400),
+                                expected: out.lines().nth(k).unwrap_or("").to_string(),
+                                observed: again.lines().nth(k).unwrap_or("<missing>").to_string(),
+                                case: json!({"src": src, "cli": true}),
+                            })
+                        }
+                        Err(_) => ctx.outcome("cli-second-pass-unparsable"),
+                    }
+                }
+            }
+        }
+    }
+
+    ctx.set("generator", json!({"states": stats.states, "transitions": stats.transitions, "complete_trees": stats.complete}));
+    for p in progs.iter().step_by(progs.len() / 6 + 1) {
+        ctx.sample(json!({"program": truncate(&p.src, 200), "class": p.class}));
+    }
+    ctx.require_outcome("distinct-layout", 1000);
+    ctx.require_outcome("multi-layout-program", 500);
+    ctx.require_outcome("cli-format-run", 10);
+    ctx.assume("widths above each program's saturation bound give the same output as at the bound (re-checked per program at B, B+1 and 10^6)");
+    finish(
+        ctx,
+        "exploration",
+        if idem {
+            "same programs and widths as C07 plus statement sequences with comments and 0..5 blank lines; for every distinct output of every (program, width): format(output, width) == output; through format_blots (native shim) and blots --format; distinct = distinct programs"
+        } else {
+            "reference renderings of every tree of the generator families (every kind; parent x child in every slot; thorough: full slot products, depth-3 spines over all kinds, depth-4 spines over class representatives), literal families, the corpus and comment/blank-line sequences x every width 1..saturation bound plus None; every distinct output re-parsed and compared statement by statement (AST PartialEq, spans ignored) with the input; through format_blots (native shim) and blots --format; distinct = distinct programs"
+        },
+        true,
+        Some((stats.states, stats.transitions, stats.transitions)).filter(|_| false),
+    )
 }
